@@ -413,13 +413,43 @@ Definition q_stage (w : wl) (id : N) : result stage_resp :=
   | Some (st, s) => do x <- stage_extra w st; Ok (id, s, x)
   end.
 
-(* Members{stage_id, limit: 100} (no start_after); Merkle has no such query *)
-Definition q_members (w : wl) (id : N) : result (list (N * N)) :=
+(* Members{stage_id, start_after, limit}: ascending by address, strictly after
+   `start_after`, at most min(limit or PAGINATION_DEFAULT_LIMIT, PAGINATION_MAX_LIMIT)
+   entries.  Merkle has no such query. *)
+Definition q_members_page (w : wl) (id : N) (start_after limit : option N) : result (list (N * N)) :=
   match w_kind w with
   | KMerkle => Err
-  | _ => Ok (firstn 100 (map (fun e => (me_addr e, me_val e))
-                             (filter (fun e => N.of_nat (me_stage e) =? id) (w_mem w))))
+  | k =>
+      let dflt := match k with KFlex => tiered_whitelist_flex__PAGINATION_DEFAULT_LIMIT
+                             | _ => tiered_whitelist__PAGINATION_DEFAULT_LIMIT end in
+      let cap := match k with KFlex => tiered_whitelist_flex__PAGINATION_MAX_LIMIT
+                            | _ => tiered_whitelist__PAGINATION_MAX_LIMIT end in
+      let lim := N.min (opt_or limit dflt) cap in
+      let all := map (fun e => (me_addr e, me_val e))
+                     (filter (fun e => N.of_nat (me_stage e) =? id) (w_mem w)) in
+      let from := match start_after with
+                  | Some a => filter (fun p => a <? fst p) all
+                  | None => all
+                  end in
+      Ok (firstn (N.to_nat lim) from)
   end.
+
+(* the whole list of a stage id, as a client obtains it: pages of 100, each starting after
+   the last address of the previous one, until an empty page *)
+Fixpoint walk_members (w : wl) (id : N) (fuel : nat) (start : option N) : result (list (N * N)) :=
+  match fuel with
+  | O => Ok []
+  | S f =>
+      match q_members_page w id start (Some 100) with
+      | Err => Err
+      | Ok [] => Ok []
+      | Ok page =>
+          do rest <- walk_members w id f (Some (fst (last page (0, 0))));
+          Ok (page ++ rest)
+      end
+  end.
+Definition q_members (w : wl) (id : N) : result (list (N * N)) :=
+  walk_members w id (S (length (w_mem w))) None.
 
 Definition q_active_stage (w : wl) (now : N) : option stage := fetch_active now (w_stages w).
 Definition q_active_stage_id (w : wl) (now : N) : N :=
